@@ -12,8 +12,8 @@ from pathlib import Path
 
 from harness.common import REPO, VERIF, Disagreement, StreamResult, budget
 
-OPS = ["crop", "nodes", "junctions", "topology"]
-INPUTS = ["base", "coord", "attr", "order", "crs", "crs_area_only", "crs_traces_only", "threshold", "area"]
+OPS = ["crop", "nodes", "junctions", "topology", "crop_allow", "crop_nodata"]
+INPUTS = ["base", "coord", "attr", "order", "crs", "crs_area_only", "crs_traces_only", "threshold", "area", "mls"]
 F10_KEY = "F10:byte-flip-that-leaves-the-pickle-loadable"
 F22_KEY = "F22:byte-flip-in-func_code.py"
 
@@ -77,8 +77,8 @@ def run_history(h):
 
 
 def s17_histories(ctx):
-    res = StreamResult("S17-histories", rule="histories of <= 8 calls (4 cached operations x 9 near-identical inputs: base, one coordinate, one attribute, row "
-                       "order, CRS, CRS on the areas only, CRS on the traces only, threshold, area) in two processes sharing a cache directory, with faults between them on the files written under it: "
+    res = StreamResult("S17-histories", rule="histories of <= 8 calls (4 cached operations + the crop with each of its two flags flipped x 10 near-identical inputs: base, one coordinate, one attribute, row "
+                       "order, CRS, CRS on the areas only, CRS on the traces only, threshold, area, a multi-part trace) in two processes sharing a cache directory, with faults between them on the files written under it: "
                        "delete, truncate at k/8, flip a byte; every call compared with the result with caching disabled; non-trivial = history with a fault "
                        "on a file that a later call reads")
     rng = random.Random(f"{ctx.seed}:S17")
@@ -107,6 +107,11 @@ def s17_histories(ctx):
     for op in ("crop", "topology"):
         for inp in ("base", "crs_area_only", "crs_traces_only"):
             hists.append({"calls1": [(op, inp)], "faults": [], "calls2": [(op, inp)]})
+    # the crop called with each flag combination on the same data, in both orders, cold then warm (an entry must be keyed by the flags too): with a
+    # multi-part trace the flag decides between a result and a TypeError
+    for a, b in (("crop_allow", "crop"), ("crop", "crop_allow"), ("crop_nodata", "crop"), ("crop", "crop_nodata")):
+        for inp in ("mls", "base"):
+            hists.append({"calls1": [(a, inp)], "faults": [], "calls2": [(b, inp), (a, inp)]})
     with ThreadPoolExecutor(14) as ex:
         outs = list(ex.map(run_history, hists))
     for h, (o1, o2, applied, nfiles) in zip(hists, outs):
